@@ -145,3 +145,89 @@ Proof.
   - vm_compute. discriminate.
   - eexists. vm_compute. reflexivity.
 Qed.
+
+(* ======================= the WHOLE engine (Uci/Engine.v, tied to the real handleInput by the SESSION runs) =======================
+   [go_handle iters fuel e line c]: handleInput on one input line from engine state e (game-object state, Search object, the two
+   global tables), with the search it starts run to its bestmove under cancellation oracle c; [go_run]: the read loop.
+   Results: [EOk e' out] | [EQuit] | [EPanic out] (the process dies) | [EStuck] (a bound of the model was hit). *)
+From Clemens Require Uci.Engine Uci.EngineInst.
+From Clemens.EngineE2E Require EngBase EngDispatch EngState EngExamples.
+Import Clemens.Uci.Engine Clemens.Uci.EngineInst.
+
+(* every line is handled to its end: the model's bounds are never hit (loop bound 510, recursion bound 1282), for EVERY engine
+   state, line and oracle, except the one go line whose depth parameter is 255 modulo 256 ... *)
+Theorem C07_engine_never_stuck : forall iters fuel e line c,
+  (510 <= iters)%nat -> (1282 <= fuel)%nat -> EngBase.depth_below_255 line ->
+  go_handle iters fuel e line c <> EStuck.
+Proof. exact EngBase.handle_never_stuck. Qed.
+Print Assumptions C07_engine_never_stuck.
+
+(* ... and the engine function does not depend on the bounds *)
+Theorem C07_engine_bounds_irrelevant : forall it1 f1 it2 f2 e line c,
+  (510 <= it1)%nat -> (1282 <= f1)%nat -> (510 <= it2)%nat -> (1282 <= f2)%nat ->
+  EngBase.depth_below_255 line ->
+  go_handle it1 f1 e line c = go_handle it2 f2 e line c.
+Proof. exact EngBase.handle_bounds_irrelevant. Qed.
+Print Assumptions C07_engine_bounds_irrelevant.
+
+(* `go depth 255`: SearchIterative's loop `for depth <= maxDepth` runs on a uint8, so with maxDepth = 255 the test is always
+   true; under an oracle that never reports done no answer is produced, whatever the bounds (in the Go engine: the loop ends
+   only at the deadline of the go or at a stop - which every non-infinite go has, so no listed property is violated) *)
+Theorem C07_go_depth_255_needs_the_deadline : forall iters fuel e line,
+  EngBase.accepts_go e -> EngBase.go_depth_of line = Some 255%Z ->
+  go_handle iters fuel e line None = EStuck \/ exists out, go_handle iters fuel e line None = EPanic out.
+Proof. exact EngBase.go_depth_255_no_answer. Qed.
+Print Assumptions C07_go_depth_255_needs_the_deadline.
+
+(* unknown commands are ignored: nothing printed, nothing changed *)
+Theorem C07_engine_ignores_unknown : forall iters fuel e line c,
+  match prepare_input V line with [] => True | w :: _ => ~ In w command_words end ->
+  go_handle iters fuel e line c = EOk e [].
+Proof. exact EngDispatch.handle_ignored. Qed.
+Print Assumptions C07_engine_ignores_unknown.
+
+(* unknown leading tokens are skipped: the line behaves as the line without them *)
+Theorem C07_engine_skips_prefix : forall iters fuel e c (garbage : list N) (sp : N) (line : list N),
+  all_unknown V (fields garbage) -> is_space sp = true ->
+  go_handle iters fuel e (garbage ++ sp :: line) c = go_handle iters fuel e line c.
+Proof. exact EngDispatch.handle_garbage_prefix. Qed.
+Print Assumptions C07_engine_skips_prefix.
+
+Theorem C07_engine_isready : forall iters fuel e line c rest,
+  EngDispatch.first_command line w_isready rest -> go_handle iters fuel e line c = EOk e [OReadyOk].
+Proof. exact EngDispatch.handle_isready. Qed.
+Print Assumptions C07_engine_isready.
+
+(* a go without a position set prints exactly the refusal and changes nothing; an accepted go prints one block that ends in
+   its only bestmove and leaves the engine idle with the same game *)
+Theorem C07_engine_go_refused : forall iters fuel e line c,
+  EngState.is_go_line line = true -> ~ EngBase.accepts_go e ->
+  go_handle iters fuel e line c = EOk e [ONoPosition].
+Proof. exact EngState.go_refused. Qed.
+Print Assumptions C07_engine_go_refused.
+
+Theorem C07_engine_go_accepted : forall iters fuel e line c e' out,
+  EngState.is_go_line line = true -> EngBase.accepts_go e ->
+  go_handle iters fuel e line c = EOk e' out ->
+  en_state e' = ST_IDLE /\ en_game e' = en_game e /\ exists m, EngState.go_block out m.
+Proof. exact EngState.go_accepted. Qed.
+Print Assumptions C07_engine_go_accepted.
+
+(* sessions: as many bestmove lines as go lines that met an accepting state; the state flag is never RUNNING between lines;
+   the shared tables change only in an accepted go *)
+Theorem C07_engine_one_bestmove_per_accepted_go : forall iters fuel ls e fin out,
+  go_run iters fuel e ls = (fin, out) -> EngState.count_best out = EngState.answered_gos iters fuel e ls.
+Proof. exact EngState.run_best_count. Qed.
+Print Assumptions C07_engine_one_bestmove_per_accepted_go.
+
+Theorem C07_engine_session_never_stuck : forall iters fuel ls e,
+  (510 <= iters)%nat -> (1282 <= fuel)%nat -> Forall (fun lc => EngBase.depth_below_255 (fst lc)) ls ->
+  fst (go_run iters fuel e ls) <> SStuck.
+Proof. exact EngState.run_never_stuck. Qed.
+Print Assumptions C07_engine_session_never_stuck.
+
+Theorem C07_engine_tables_change_only_in_go : forall iters fuel e line c e' out,
+  go_handle iters fuel e line c = EOk e' out ->
+  (en_tt e' <> en_tt e \/ en_cache e' <> en_cache e) -> EngState.is_go_line line = true /\ EngBase.accepts_go e.
+Proof. exact EngState.tables_change_only_in_go. Qed.
+Print Assumptions C07_engine_tables_change_only_in_go.
